@@ -45,9 +45,20 @@ const STEP_NAMES: [&str; 4] = ["into_inner->try_new/new", "into_inner->TryFrom",
 
 pub fn run(s: &dyn Subject, ctx: &Ctx) -> Option<DeclReport> {
     let spec = s.spec();
-    if !spec.has_tag("C11") {
+    // "C11": the declaration's sanitizers are idempotent by construction, every obtainable value must be canonical.
+    // "C11v": a custom sanitizer is not idempotent in general; the property is then demanded only of values that the
+    // reference model itself maps to themselves (sanitize(v) == v and v valid) - for those C01 already implies it.
+    let strict = spec.has_tag("C11");
+    if !strict && !spec.has_tag("C11v") {
         return None;
     }
+    let canonical = |v: &Value| -> bool {
+        if strict {
+            return true;
+        }
+        let e = ctx.oracle.ctor(spec, v);
+        e.must_accept() && e.sanitized == *v
+    };
     let mut rep = DeclReport::new("C11", spec);
     let mut dom = domain(spec, ctx.tier, ctx.seed);
     if ctx.tier == Tier::Thorough && spec.has_tag("unicode_sweep") {
@@ -78,6 +89,10 @@ pub fn run(s: &dyn Subject, ctx: &Ctx) -> Option<DeclReport> {
         }
         for (how, o) in others {
             if let Obs::Ok(w) = o {
+                if !canonical(&w) {
+                    rep.guard("model_value_not_canonical(skipped)");
+                    continue;
+                }
                 rep.executions += 1;
                 match s.ctor(&w) {
                     Obs::Ok(z) if z == w => {}
@@ -89,6 +104,10 @@ pub fn run(s: &dyn Subject, ctx: &Ctx) -> Option<DeclReport> {
             Obs::Ok(v) => v,
             _ => continue,
         };
+        if !canonical(&v) {
+            rep.guard("model_value_not_canonical(skipped)");
+            continue;
+        }
         if v != *raw {
             rep.guard("stored_differs_from_raw");
             rep.class("value-changed-by-sanitizer");
@@ -108,7 +127,7 @@ pub fn run(s: &dyn Subject, ctx: &Ctx) -> Option<DeclReport> {
             }
         }
         // a random chain (only informative if some step moved: it shows where the value drifts to)
-        if rng.chance(1, 16) {
+        if strict && rng.chance(1, 16) {
             let mut cur = v.clone();
             let mut path = Vec::new();
             for _ in 0..chain_len {
